@@ -107,16 +107,21 @@ def run(R):
                     g = True
             R.ob("C48.serial", fn, e, g, "%s reached only with maxThreads >= 2" % e["name"] if g else "%s reachable with maxThreads < 2" % e["name"], sitekey="gate:" + e["name"], why="maxThreads 0 or 1 means serial execution")
         break
+    from lib.rules import counts_under_flag
     for fn in F.functions(qname="dispenso::detail::parallel_for_staticImpl"):
-        for pos, ev in fn.events():
-            if ev.get("k") == "decl" and ev.get("name") == "numToSchedule":
-                n += 1
-                i = strip_casts(ev.get("init"))
-                ok = isinstance(i, dict) and i.get("k") == "cond" and strip_casts(i.get("c")).get("name") == "wait"
-                if ok:
-                    t, f = strip_casts(i.get("t")), strip_casts(i.get("f"))
-                    ok = isinstance(t, dict) and t.get("k") == "bin" and t.get("op") == "-" and const_val(t.get("r")) == 1 and same_value(t.get("l"), f) and strip_casts(f).get("name") == "numThreads"
-                R.ob("C48.launch-count", fn, ev, ok, "scheduled = wait ? numThreads - 1 : numThreads" if ok else "static path schedules %s" % expr_str(i), sitekey="static-numToSchedule", why=WHY)
+        # the number of chunks handed to the pool is at most numThreads, and at most numThreads - 1
+        # when the caller runs a chunk itself (wait) -- evaluated per flag value, whatever the spelling
+        nts = [ev["vid"] for _, ev in fn.events() if ev.get("k") == "decl" and ev.get("name") == "numThreads"]
+        bulk = [(p, e) for p, e in fn.events() if e.get("k") == "call" and e.get("name") == "scheduleBulk"]
+        if not nts or not bulk:
+            continue
+        n += 1
+        is_wait = lambda a: isinstance(a, dict) and a.get("k") == "var" and a.get("name") == "wait" and a.get("vk") == "param"
+        verdict = counts_under_flag(fn, nts[0], is_wait)
+        ok = bool(verdict[True]) and bool(verdict[False]) and verdict[True] <= {"n-1"} and verdict[False] <= {"n", "n-1"}
+        R.ob("C48.launch-count", fn, bulk[0][1], ok, "scheduled = numThreads - 1 with wait, numThreads without" if ok else
+             "static path hands the pool a chunk count not bounded by numThreads minus the caller (wait: %s, no wait: %s)" % (sorted(map(str, verdict[True])), sorted(map(str, verdict[False]))),
+             sitekey="static-numToSchedule", why=WHY)
         break
     for fn in F.functions(qname="dispenso::for_each_n"):
         if not any(p["name"] == "tasks" for p in fn.params):
